@@ -1,6 +1,6 @@
 (* Proofs/GrangerP.v — lemmas about Model/Granger.v (property C12). *)
 From Coq Require Import QArith List Bool Arith Lia Psatz Setoid Morphisms.
-From NT Require Import QC Granger.
+From NT Require Import QC AR ARP Granger.
 Import ListNotations.
 Open Scope Q_scope.
 
@@ -279,18 +279,6 @@ Proof.
 Qed.
 
 (* ------------------------------------------------------------------ Proper instances *)
-Global Instance re_proper : Proper (ceq ==> Qeq) re.
-Proof. intros a b [E _]. exact E. Qed.
-Global Instance im_proper : Proper (ceq ==> Qeq) im.
-Proof. intros a b [_ E]. exact E. Qed.
-Global Instance ofQ_proper : Proper (Qeq ==> ceq) ofQ.
-Proof. intros a b E. split; unfold ofQ, re, im; simpl; [exact E|reflexivity]. Qed.
-Global Instance cinv_proper : Proper (ceq ==> ceq) cinv.
-Proof. intros a b E. pose proof (cnorm2_proper _ _ E) as N. destruct E as [E1 E2].
-  split; unfold cinv; cbn [re im fst snd]; unfold re, im in *; rewrite E1, E2, N || rewrite E1, N || rewrite E2, N; reflexivity. Qed.
-Global Instance cdiv_proper : Proper (ceq ==> ceq ==> ceq) cdiv.
-Proof. intros a a' Ea b b' Eb. unfold cdiv. rewrite Ea, Eb. reflexivity. Qed.
-
 Global Instance m2eq_equiv : Equivalence m2eq.
 Proof. split.
   - intros A; (split; [|split; [|split]]); reflexivity.
@@ -368,7 +356,7 @@ Qed.
 
 (* ------------------------------------------------------------------ no coupling -> zero causality *)
 Lemma peval_zero l z : Forall (fun c => c =c= c0) l -> peval l z =c= c0.
-Proof. induction 1 as [|c l Hc _ IH]; simpl; [reflexivity|]. rewrite Hc, IH. cring. Qed.
+Proof. induction 1 as [|c l Hc _ IH]; simpl; [reflexivity|]. rewrite cr_eq, Hc, IH. cring. Qed.
 
 Lemma poly_b_zero a z : Forall (fun m => q01 m == 0) a -> peval (poly_b a) z =c= c0.
 Proof. intros F. apply peval_zero. unfold poly_b. constructor; [reflexivity|].
